@@ -3,6 +3,7 @@ CONSTANTS
   MaxFrags = 2
   MaxNodes = 7
   FieldPool = {}
+  Extended = {}
   Fuel = 5
   FlipFuel = 4
 INVARIANTS Emit
